@@ -21,8 +21,10 @@ Theorem C20_omap_refines_assoc_list :
 Proof. exact omap_history. Qed.
 Print Assumptions C20_omap_refines_assoc_list.
 
-(* every history of declare/lookup on the trie answers as an association list keyed by token
-   sequences *)
+(* every history of Declare / Lookup / Search / Put (the unconditional, overwriting Insert of the
+   generic context) / Fork (copy the trie, run an inner history on the copy, continue on the
+   original; nested to any depth) on the trie answers as an association list keyed by token
+   sequences, on which Put replaces the entry of an equal key and a fork leaves no trace *)
 Theorem C20_trie_refines_assoc_list :
   forall ops : list (top tok N),
     map (obs N) (c20_run ops) = srun tok N tok_eq [] ops.
@@ -32,25 +34,65 @@ Proof.
 Qed.
 Print Assumptions C20_trie_refines_assoc_list.
 
-Definition state_after := state_after tok N tok_eq tok_less.
+(* Copy is the identity on what a trie represents *)
+Theorem C20_copy_is_identity :
+  forall t : trie tok N, wf tok N tok_eq t ->
+    wf tok N tok_eq (copy tok_eq tok_less t) /\
+    forall ks, lookup tok_eq tok_less (copy tok_eq tok_less t) ks = lookup tok_eq tok_less t ks.
+Proof. exact (copy_correct tok N tok_eq tok_less tok_eq_sym tok_eq_trans). Qed.
+Print Assumptions C20_copy_is_identity.
 
-(* first half of the property *)
+Definition state_after := state_after tok N tok_eq tok_less.
+Definition spec_after := spec_after tok N tok_eq.
+
+(* isolation of one fork: for every history h, every inner history (Puts over keys of the
+   original, declarations, nested forks) and every continuation, the continuation answers exactly
+   as in the history without the fork, and the fork answers as the association list of the
+   original at that moment *)
+Theorem C20_fork_isolation :
+  forall h inner cont : list (top tok N),
+    c20_run (h ++ Fork inner :: cont) =
+      c20_run h ++ (ForkBegin :: trun tok_eq tok_less (copy tok_eq tok_less (state_after h)) inner ++ [ForkEnd])
+      ++ trun tok_eq tok_less (state_after h) cont
+    /\ c20_run (h ++ cont) = c20_run h ++ trun tok_eq tok_less (state_after h) cont
+    /\ map (obs N) (trun tok_eq tok_less (copy tok_eq tok_less (state_after h)) inner) = srun tok N tok_eq (spec_after h) inner.
+Proof. exact (fork_isolation tok N tok_eq tok_less tok_eq_sym tok_eq_trans). Qed.
+Print Assumptions C20_fork_isolation.
+
+(* isolation of any number of forks anywhere in a history: the outputs outside the forks are the
+   outputs of the history with every fork erased *)
+Theorem C20_forks_invisible :
+  forall ops : list (top tok N), strip_forks 0 (c20_run ops) = c20_run (erase_forks ops).
+Proof. exact (fun ops => forks_invisible tok N tok_eq tok_less ops empty). Qed.
+Print Assumptions C20_forks_invisible.
+
+(* first half of the property; ops2 may contain any number of forks whose inner histories Put the
+   same key - only a Put on the trie itself (which the parser never issues) is excluded *)
 Theorem C20_dup_rejected :
   forall ops1 ks v ops2 ks' v',
+    forallb (fun o => negb (is_put o)) ops2 = true ->
     lookup tok_eq tok_less (state_after ops1) ks = None ->
     eql tok_eq ks ks' = true ->
-    exists w, snd (tstep tok_eq tok_less (state_after (ops1 ++ Declare ks v :: ops2)) (Declare ks' v')) = Rejected w.
+    snd (tstep tok_eq tok_less (state_after (ops1 ++ Declare ks v :: ops2)) (Declare ks' v')) = [Rejected v].
 Proof. exact (dup_rejected tok N tok_eq tok_less tok_eq_sym tok_eq_trans). Qed.
 Print Assumptions C20_dup_rejected.
 
-(* second half of the property *)
+(* second half of the property, across forks *)
 Theorem C20_stays_callable :
   forall ops1 ks v ops2 ks',
+    forallb (fun o => negb (is_put o)) ops2 = true ->
     lookup tok_eq tok_less (state_after ops1) ks = None ->
     eql tok_eq ks ks' = true ->
     lookup tok_eq tok_less (state_after (ops1 ++ Declare ks v :: ops2)) ks' = Some v.
 Proof. exact (stays_callable tok N tok_eq tok_less tok_eq_sym tok_eq_trans). Qed.
 Print Assumptions C20_stays_callable.
+
+(* why the side condition: Put is the operation that rebinds an existing key *)
+Theorem C20_put_overwrites :
+  forall ops ks v ks',
+    eql tok_eq ks ks' = true -> lookup tok_eq tok_less (state_after (ops ++ [Put ks v])) ks' = Some v.
+Proof. exact (put_overwrites tok N tok_eq tok_less tok_eq_sym tok_eq_trans). Qed.
+Print Assumptions C20_put_overwrites.
 
 (* why the fallback is needed: ordering and equality of the real keys are inconsistent, and the
    binary-search-only lookup (the tree before the fix) loses a key *)
